@@ -12,6 +12,13 @@ inline bool post_sin_aprox(int d, fixed_t r) { return r == sin_angle_tab(uint16_
 inline bool post_cos_aprox(int d, fixed_t r) { return r == cos_angle_tab(uint16_t(vf_deg_index(d))); }
 // atan_index_aprox returns a multiple of 0.5 in [-128, 128] (index units of pi/128)
 constexpr bool post_atan_index(fixed_t, fixed_t r) { return r.v % 32768 == 0 && r.v >= -128 * 65536 && r.v <= 128 * 65536; }
+// accuracy clause of sqrt_aprox, exactly, in integers: with X = x.v * 2^16 (so that the real root of x is sqrt(X) / 2^16) the claim
+// |r - sqrt(X)| <= 0.02 * sqrt(X) is 0.98^2 * X <= r^2 <= 1.02^2 * X, i.e. 2401 * X <= 2500 * r^2 <= 2601 * X -- no real function needed.
+constexpr bool pre_sqrt_aprox_acc(fixed_t x) { return x.v >= 1 && x.v < (1l << 37); }
+constexpr bool post_sqrt_aprox_acc(fixed_t x, fixed_t r)
+  { if( r.v < 0 || r.v >= (1l << 28) ) return false;
+    uwide const X = uwide(static_cast<unsigned long>(x.v)) << 16, R2 = uwide(static_cast<unsigned long>(r.v) * static_cast<unsigned long>(r.v));
+    return 2401 * X <= 2500 * R2 && 2500 * R2 <= 2601 * X; }
 constexpr bool post_sqrt_aprox(fixed_t x, fixed_t r) { return x.v < 0 ? vf_isnan(r) : x.v == 0 ? r.v == 0 : (r.v >= 0 && vf_finite(r)); }
 }
 }
